@@ -95,10 +95,15 @@ def run(ctx):
     with open(dump, "w") as f:
         f.write("\n".join(lines) + "\n")
     tr2 = os.path.join(ctx.work, "ctx.ndjson")
+    ctx.wtf()
     i2 = ctx.run_vh(["context-run", "-in", dump, "-out", tr2])
     ok2, rej2 = ctx.validate_traces(tr2, "TraceContext", CTX_TRACE, max_rejects=6)
     for x in rej2:
         ev = json.loads(x["trace"][x["at"] - 1])
+        if ev.get("op") == "ctxcli":
+            ctx.violation("C13|context|command-line-directory", "wtf run in the %s directory with PWD=%s reports context %r; the directory's context is %r" %
+                          (ev["dir"], ev["pwd"], ev["got"], ev["want"]), ev, name="ctx")
+            continue
         if ev.get("op") == "ctxlit":
             ctx.violation("C13|context|marker-not-recognised", "a directory holding only %r is reported as generic although the analyzer's detectors name "
                           "that file" % ev["name"], ev, name="ctx")
